@@ -218,6 +218,41 @@ TARGETS["solution_walks"] = dict(
                  calls={"self.solver.get_values(self.edge_vars)": ("solver_edge_values", _WS), "self.G.nodes()": ("nodes", List(NODE)),
                         "self.G.edges()": ("edges", List(EDGE)), "self.G.source": ("source", NODE), "self.G.sink": ("sink", NODE)}))
 
+# ---- C13: the search loops over k.  The body is first LOWERED (lower_search): building a k-model / a solver and running it become reads of an oracle --
+# `self.o_runs` (what the i-th call of SolverWrapper.optimize reports: 0 kOptimal, 1 kInfeasible, 2 kTimeLimit, 3 anything else), `self.o_n` (calls made so
+# far), `self.o_last` (what the last call reported) --, the bookkeeping of times / statistics / solutions is erased after a purity check, set_solved() and the
+# chosen model become the outputs `solved` and `chosen`; everything else goes through the ordinary translation.  This is the abstraction of Search.v.
+_S_IN = [("o_runs", List(INT)), ("o_n", INT), ("o_last", INT)]
+_S_OUT = [("o_n", INT), ("o_last", INT), ("solved", BOOL), ("chosen", INT)]
+def _search_target(file, cls, inputs, **cfg):
+    cfg.setdefault("model_ctors", []); cfg.setdefault("run_calls", []); cfg.setdefault("build_calls", []); cfg.setdefault("erase_attrs", [])
+    cfg.setdefault("erase_locals", []); cfg.setdefault("texts", {}); cfg.setdefault("solved_calls", []); cfg.setdefault("solved_attrs", [])
+    cfg.setdefault("chosen_attr", None); cfg.setdefault("chosen_range_len", None); cfg.setdefault("own_solver", False)
+    cfg.setdefault("star_kwargs", False); cfg.setdefault("presolved", None); cfg.setdefault("objective", None); cfg.setdefault("enum", None)
+    cfg.setdefault("optional_locals", []); cfg.setdefault("truthy_attrs", {})
+    return dict(file=file, cls=cls, func="solve", params=[SELFOBJ], defaults=[], ret=BOOL, search=cfg,
+                selfobj=dict(inputs=_S_IN + [(n, INT) if isinstance(n, str) else n for n in inputs], outputs=_S_OUT, calls={}))
+TARGETS["search_mpc"] = _search_target("flowpaths/minpathcover.py", "MinPathCover", ["lb", "nedges"],
+    model_ctors=["kpathcover.kPathCover"], erase_attrs=["solve_time_start", "_solution", "solve_statistics"],
+    texts={"self.get_lowerbound_k()": "lb", "self.G.number_of_edges()": "nedges"}, solved_calls=["self.set_solved()"], chosen_attr="model")
+TARGETS["search_mpcc"] = _search_target("flowpaths/minpathcovercycles.py", "MinPathCoverCycles", ["lb", "nedges"],
+    model_ctors=["kpathcovercycles.kPathCoverCycles"], erase_attrs=["solve_time_start", "_solution", "solve_statistics"],
+    texts={"self.get_lowerbound_k()": "lb", "self.G.number_of_edges()": "nedges"}, solved_calls=["self.set_solved()"], chosen_attr="model")
+TARGETS["search_mgs"] = _search_target("flowpaths/mingenset.py", "MinGenSet", ["lowerbound", "nnumbers", "extra_cuts"],
+    own_solver=True, build_calls=["self._create_solver"], run_calls=["self.solver.optimize"], erase_attrs=["solve_statistics"],
+    texts={"len(self.initial_numbers)": "nnumbers", "sum((len(c) - 1 for c in self.partition_constraints or []))": "extra_cuts"},
+    solved_attrs=["_is_solved"], chosen_range_len="_solution")
+
+TARGETS["search_npo"] = _search_target("flowpaths/numpathsoptimization.py", "NumPathsOptimization",
+    [("o_ext", List(BOOL)), ("o_obj", List(NUM)), ("o_over", List(BOOL)), "min_num_paths", "max_num_paths", "lb", ("stop_on_first_feasible", BOOL),
+     ("o_abs_on", BOOL), ("stop_on_delta_abs", NUM), ("o_rel_on", BOOL), ("stop_on_delta_rel", NUM)],
+    model_ctors=["self.model_type"], star_kwargs=True, presolved="o_ext", objective="o_obj",
+    erase_attrs=["solve_time_start", "_solution", "solve_statistics"],
+    texts={"self.get_lowerbound_k()": "lb", "self.solve_time_elapsed > self.time_limit": "=self.o_over[self.o_n]"},
+    enum=dict(local=None, cls="NumPathsOptimization", names=["solved_status_name", "timeout_status_name", "unbounded_status_name", "infeasible_status_name"]),
+    optional_locals=["*"], truthy_attrs={"stop_on_delta_abs": "o_abs_on", "stop_on_delta_rel": "o_rel_on"},
+    solved_calls=["self.set_solved()"], chosen_attr="model")
+
 # a query of stDiGraph on data networkx computed (condensation): the expressions below are inputs of the model
 TARGETS["is_scc_edge"] = dict(file="flowpaths/stdigraph.py", cls="stDiGraph", func="is_scc_edge", params=[SELFOBJ, NODE, NODE], defaults=[], ret=BOOL,
                               selfobj=dict(inputs=[], outputs=[],
@@ -253,6 +288,271 @@ OBJECTIVE_PRIMITIVE = dict(args="self, expr, sense='minimize'", path=[
     ("if-test", 2, "self.external_solver == 'highs'"),
     ("if-body", 2, "self.solver.set_objective_without_solving(expr, sense=sense)")])
 
+
+STATUS_CODE = {"kOptimal": 0, "kInfeasible": 1, "kTimeLimit": 2}
+
+def lower_search(fdef, cfg, me, repo, classdef=None):
+    """the oracle reading of a search loop (see TARGETS["search_*"]); anything it does not recognise is left for the translator to reject"""
+    wp = os.path.join(repo, "flowpaths/utils/solverwrapper.py")
+    consts = {}
+    for c in ast.parse(open(wp).read()).body:
+        if isinstance(c, ast.ClassDef) and c.name == "SolverWrapper":
+            for n in c.body:
+                if isinstance(n, ast.Assign) and len(n.targets) == 1 and isinstance(n.targets[0], ast.Name) and isinstance(n.value, ast.Constant) and isinstance(n.value.value, str):
+                    consts["sw.SolverWrapper." + n.targets[0].id] = n.value.value
+    models = set(); txt = ast.unparse
+    pure = {"time.perf_counter", "copy.deepcopy", "sorted", "round", "float", "int", "len", "range", "sum", "dict", "list", "id", "utils.fpid", me + ".solver.get_values"}
+    if cfg["own_solver"]: pure.add(me + ".solver.get_model_status")
+    enum = {}; enum_local = None
+    if cfg["enum"]:         # a local that holds None or one of the class's status names: numbered (None = 0); the names must be distinct strings
+        enum_local = cfg["enum"]["local"]; vals = {}
+        for n in (classdef.body if classdef is not None else []):
+            if isinstance(n, ast.Assign) and len(n.targets) == 1 and isinstance(n.targets[0], ast.Name) and isinstance(n.value, ast.Constant) and isinstance(n.value.value, str):
+                vals[n.targets[0].id] = n.value.value
+        names = cfg["enum"]["names"]
+        if any(x not in vals for x in names) or len({vals[x] for x in names}) != len(names):
+            raise Unsupported("the status names %s of %s are not distinct string constants" % (names, cfg["enum"]["cls"]), fdef)
+        enum = {"%s.%s" % (cfg["enum"]["cls"], x): i + 1 for i, x in enumerate(names)}
+    optional = set(cfg["optional_locals"])
+    # roles of locals are found by their use, not by their names: a local that is only ever None or one of the status names is the enum local; a
+    # local that is None at some point and a value at another is optional (its reads are checked below)
+    assigns = {}
+    for n in ast.walk(fdef):
+        if isinstance(n, ast.Assign) and len(n.targets) == 1 and isinstance(n.targets[0], ast.Name): assigns.setdefault(n.targets[0].id, []).append(n.value)
+    is_none_ = lambda e: isinstance(e, ast.Constant) and e.value is None
+    if cfg["enum"]:
+        cands = [v for v, rhs in assigns.items() if any(not is_none_(r) for r in rhs) and all(is_none_(r) or ast.unparse(r) in enum for r in rhs)]
+        if len(cands) == 1: enum_local = cands[0]
+    if cfg["optional_locals"]:
+        optional = {v for v, rhs in assigns.items() if v != enum_local and any(is_none_(r) for r in rhs) and any(not is_none_(r) for r in rhs)
+                    and not any(isinstance(r, ast.Call) and ast.unparse(r.func) in cfg["model_ctors"] for r in rhs)}
+
+    def opaque_ok(e):
+        for n in ast.walk(e):
+            if isinstance(n, ast.Call):
+                if txt(n.func) in pure: continue
+                if isinstance(n.func, ast.Attribute) and isinstance(n.func.value, ast.Name) and n.func.value.id in models and n.func.attr in ("get_solution",): continue
+                return False
+            if isinstance(n, (ast.Lambda, ast.Yield, ast.YieldFrom, ast.Await, ast.NamedExpr)): return False
+        return True
+
+    def sattr(name, ctx=None):
+        return ast.Attribute(value=ast.Name(id=me, ctx=ast.Load()), attr=name, ctx=ctx or ast.Load())
+
+    def parse_expr(code, at):
+        e = ast.parse(code.replace("SELF", me), mode="eval").body
+        for sub in ast.walk(e): ast.copy_location(sub, at)
+        return e
+
+    def is_status(e):
+        if not (isinstance(e, ast.Call) and not e.args and not e.keywords and isinstance(e.func, ast.Attribute) and e.func.attr == "get_model_status"): return False
+        r = e.func.value
+        if cfg["own_solver"] and txt(r) == me + ".solver": return True
+        return isinstance(r, ast.Attribute) and r.attr == "solver" and isinstance(r.value, ast.Name) and r.value.id in models
+
+    def by_text(n):
+        t = cfg["texts"].get(txt(n))
+        if t is None: return None
+        return parse_expr(t[1:], n) if t.startswith("=") else ast.copy_location(sattr(t), n)
+
+    def is_none(e): return isinstance(e, ast.Constant) and e.value is None
+
+    class X(ast.NodeTransformer):
+        def visit_Compare(self, n):
+            r = by_text(n)
+            if r is not None: return r
+            if len(n.ops) == 1 and isinstance(n.ops[0], (ast.Eq, ast.NotEq)):
+                a, b = n.left, n.comparators[0]
+                for x, y in ((a, b), (b, a)):
+                    if is_status(x):
+                        name = y.value if isinstance(y, ast.Constant) and isinstance(y.value, str) else consts.get(txt(y))
+                        if name not in STATUS_CODE: raise Unsupported("a solver status compared with %s (only the optimal / infeasible / time-limit constants)" % txt(y), n)
+                        return ast.copy_location(ast.Compare(left=sattr("o_last"), ops=n.ops, comparators=[ast.Constant(value=STATUS_CODE[name])]), n)
+            if len(n.ops) == 1 and isinstance(n.ops[0], (ast.Is, ast.IsNot)) and isinstance(n.left, ast.Name) and is_none(n.comparators[0]):
+                neg = isinstance(n.ops[0], ast.IsNot)
+                if n.left.id == enum_local:
+                    return ast.copy_location(ast.Compare(left=n.left, ops=[ast.NotEq() if neg else ast.Eq()], comparators=[ast.Constant(value=0)]), n)
+                if n.left.id in optional:
+                    flag = ast.Name(id=n.left.id + "__set", ctx=ast.Load())
+                    return ast.copy_location(flag if neg else ast.UnaryOp(op=ast.Not(), operand=flag), n)
+            return self.generic_visit(n)
+        def visit_Attribute(self, n):
+            if txt(n) in enum: return ast.copy_location(ast.Constant(value=enum[txt(n)]), n)
+            return self.generic_visit(n)
+        def visit_Call(self, n):
+            r = by_text(n)
+            if r is not None: return r
+            if isinstance(n.func, ast.Attribute) and not n.args and not n.keywords and isinstance(n.func.value, ast.Name) and n.func.value.id in models:
+                m = n.func.value.id
+                if n.func.attr == "is_solved":
+                    return parse_expr("(SELF.%s[%s] or SELF.o_last == 0)" % (cfg["presolved"], m) if cfg["presolved"] else "SELF.o_last == 0", n)
+                if n.func.attr == "get_objective_value" and cfg["objective"]:
+                    return parse_expr("SELF.%s[%s]" % (cfg["objective"], m), n)
+            if is_status(n): raise Unsupported("a solver status used other than in == / != with a status constant", n)
+            return self.generic_visit(n)
+        def visit_GeneratorExp(self, n):
+            r = by_text(n)
+            return r if r is not None else self.generic_visit(n)
+
+    def stmts_of(code, at):
+        out = ast.parse(code.replace("SELF", me)).body
+        for o in out:
+            for sub in ast.walk(o): ast.copy_location(sub, at)
+        return out
+    RUN = "SELF.o_last = SELF.o_runs[SELF.o_n]\nSELF.o_n = SELF.o_n + 1\n"
+
+    def target_attr(t):
+        if isinstance(t, ast.Subscript): t = t.value
+        if isinstance(t, ast.Attribute) and isinstance(t.value, ast.Name) and t.value.id == me: return t.attr
+        return None
+    def target_local(t):
+        if isinstance(t, ast.Subscript): t = t.value
+        return t.id if isinstance(t, ast.Name) else None
+
+    def erasable(st):
+        if isinstance(st, ast.Assign) and len(st.targets) == 1:
+            t = st.targets[0]
+            if (target_attr(t) in cfg["erase_attrs"] or target_local(t) in erase_locals) and opaque_ok(st.value) \
+                    and (not isinstance(t, ast.Subscript) or opaque_ok(t.slice)): return True
+        if isinstance(st, ast.Expr) and isinstance(st.value, ast.Call) and txt(st.value.func).startswith("utils.logger.") and opaque_ok(st.value): return True
+        if isinstance(st, ast.Expr) and isinstance(st.value, ast.Call) and txt(st.value.func) in cfg["build_calls"] \
+                and all(opaque_ok(a) for a in st.value.args) and all(opaque_ok(k.value) for k in st.value.keywords): return True
+        if isinstance(st, ast.Expr) and isinstance(st.value, ast.Call) and isinstance(st.value.func, ast.Attribute) and st.value.func.attr == "update" \
+                and target_attr(st.value.func.value) in cfg["erase_attrs"] and not isinstance(st.value.func.value, ast.Subscript) \
+                and all(opaque_ok(a) for a in st.value.args) and not st.value.keywords: return True
+        if isinstance(st, ast.If) and not st.orelse and isinstance(st.test, ast.Compare) and len(st.test.ops) == 1 and isinstance(st.test.ops[0], (ast.In, ast.NotIn)) \
+                and isinstance(st.test.left, ast.Constant) and isinstance(st.test.comparators[0], ast.Name) and st.test.comparators[0].id in erase_locals \
+                and all(erasable(b) for b in st.body): return True
+        return False
+
+    # locals that only feed erased bookkeeping (solver options handed to the k-model, start times): every assignment has a pure right-hand side and
+    # every read sits in an erased statement, in a keyword argument (other than k) of the k-model's constructor, or in a log message
+    def erasable_locals():
+        cand = {v for v, rhs in assigns.items() if all(opaque_ok(r) for r in rhs) and not any(isinstance(r, ast.Call) and txt(r.func) in cfg["model_ctors"] for r in rhs)
+                and v != enum_local and v not in optional}
+        for n in ast.walk(fdef):          # subscript stores `L[..] = e` count as assignments of L
+            if isinstance(n, ast.Assign) and len(n.targets) == 1 and isinstance(n.targets[0], ast.Subscript) and isinstance(n.targets[0].value, ast.Name) \
+                    and not (opaque_ok(n.value) and opaque_ok(n.targets[0].slice)): cand.discard(n.targets[0].value.id)
+        changed = True
+        while changed:
+            changed = False
+            ok_nodes = set()         # ids of Name loads that sit in an erasable position w.r.t. the current candidates
+            def mark(e):
+                for x in ast.walk(e):
+                    if isinstance(x, ast.Name) and isinstance(x.ctx, ast.Load): ok_nodes.add(id(x))
+            for n in ast.walk(fdef):
+                if isinstance(n, ast.Assign) and len(n.targets) == 1:
+                    t = n.targets[0]
+                    if target_attr(t) in cfg["erase_attrs"] or target_local(t) in cand or (cfg["chosen_range_len"] and target_attr(t) == cfg["chosen_range_len"]):
+                        mark(n.value)
+                        if isinstance(t, ast.Subscript): mark(t.slice); mark(t.value)
+                    if isinstance(n.value, ast.Call) and txt(n.value.func) in cfg["model_ctors"]:
+                        for k in n.value.keywords:
+                            if k.arg != "k": mark(k.value)
+                if isinstance(n, ast.Expr) and isinstance(n.value, ast.Call) and txt(n.value.func).startswith("utils.logger."): mark(n.value)
+                if isinstance(n, ast.If) and not n.orelse and isinstance(n.test, ast.Compare) and len(n.test.ops) == 1 and isinstance(n.test.ops[0], (ast.In, ast.NotIn)) \
+                        and isinstance(n.test.left, ast.Constant) and isinstance(n.test.comparators[0], ast.Name) and n.test.comparators[0].id in cand: mark(n.test)
+            for x in ast.walk(fdef):
+                if isinstance(x, ast.Name) and isinstance(x.ctx, ast.Load) and x.id in cand and id(x) not in ok_nodes:
+                    cand.discard(x.id); changed = True
+        return cand
+    erase_locals = set(cfg["erase_locals"])
+    erase_locals |= erasable_locals()
+
+    def reads(e, name):
+        return any(isinstance(n, ast.Name) and n.id == name and isinstance(n.ctx, ast.Load) for n in ast.walk(e))
+
+    late = set()        # k-model locals bound inside a loop: a read after the loop is an UnboundLocalError if the loop never bound them
+    for loop in [n for n in ast.walk(fdef) if isinstance(n, (ast.For, ast.While))]:
+        for n in ast.walk(loop):
+            if isinstance(n, ast.Assign) and len(n.targets) == 1 and isinstance(n.targets[0], ast.Name) and isinstance(n.value, ast.Call) and txt(n.value.func) in cfg["model_ctors"]:
+                late.add(n.targets[0].id)
+    def n_loads(root, m): return sum(1 for n in ast.walk(root) if isinstance(n, ast.Name) and n.id == m and isinstance(n.ctx, ast.Load))
+    top_loops = [st for st in fdef.body if isinstance(st, (ast.For, ast.While))]
+    late = {m for m in late if n_loads(fdef, m) > sum(n_loads(l, m) for l in top_loops)}      # only those that are read after / outside the loop
+
+    def walk(stmts, known, in_loop=False):
+        """known: optional locals known to hold a value here (inside the else of `if X is None`)"""
+        out = []; checked = set()
+        for st in stmts:
+            if not in_loop:
+                for m in sorted(late - checked):
+                    heads = [getattr(st, f) for f in ("test", "iter") if hasattr(st, f)] if isinstance(st, (ast.If, ast.For, ast.While)) else [st]
+                    if any(reads(h, m) for h in heads):
+                        out += stmts_of("if not %s__def:\n    raise UnboundLocalError()\n" % m, st); checked.add(m)
+            if isinstance(st, ast.Assign) and len(st.targets) == 1:
+                t = st.targets[0]; v = st.value
+                if cfg["chosen_attr"] and target_attr(t) == cfg["chosen_attr"] and not isinstance(t, ast.Subscript) and isinstance(v, ast.Name) and v.id in models:
+                    out += stmts_of("SELF.chosen = %s\n" % v.id, st); continue
+                if cfg["chosen_range_len"] and target_attr(t) == cfg["chosen_range_len"] and not isinstance(t, ast.Subscript):
+                    g = v.args[0] if isinstance(v, ast.Call) and txt(v.func) == "sorted" and len(v.args) == 1 and not v.keywords else None
+                    if isinstance(g, ast.GeneratorExp) and len(g.generators) == 1 and not g.generators[0].ifs and isinstance(g.generators[0].iter, ast.Call) \
+                            and txt(g.generators[0].iter.func) == "range" and len(g.generators[0].iter.args) == 1 and opaque_ok(g.elt):
+                        out += stmts_of("SELF.chosen = %s\n" % txt(X().visit(g.generators[0].iter.args[0])), st); continue
+                    raise Unsupported("the solution is not `sorted(<expression> for i in range(k))`", st)
+                if target_attr(t) in cfg["solved_attrs"] and not isinstance(t, ast.Subscript):
+                    if not (isinstance(v, ast.Constant) and v.value is True): raise Unsupported("the solved flag set to something other than True", st)
+                    out += stmts_of("SELF.solved = True\n", st); continue
+                if isinstance(t, ast.Name) and isinstance(v, ast.Call) and txt(v.func) in cfg["model_ctors"]:
+                    kws = {k.arg: k.value for k in v.keywords}
+                    if None in kws and not cfg["star_kwargs"]: raise Unsupported("** in the construction of the k-model", st)
+                    if v.args or "k" not in kws or not all(opaque_ok(x) and not ({n.id for n in ast.walk(x) if isinstance(n, ast.Name)} & models) for a, x in kws.items() if a != "k"):
+                        raise Unsupported("construction of the k-model (keyword arguments only, k=<expression>)", st)
+                    models.add(t.id)
+                    out.append(ast.copy_location(ast.Assign(targets=[t], value=X().visit(kws["k"])), st))
+                    if t.id in late: out += stmts_of("%s__def = True\n" % t.id, st)
+                    continue
+                if isinstance(t, ast.Name) and t.id == enum_local and is_none(v):
+                    out += stmts_of("%s = 0\n" % t.id, st); continue
+                if isinstance(t, ast.Name) and t.id in optional:
+                    if is_none(v):
+                        out += stmts_of("%s__set = False\n%s = 0\n" % (t.id, t.id), st); known = known - {t.id}; continue
+                    for o in optional:
+                        if reads(v, o) and o not in known: raise Unsupported("read of %r where it may be None" % o, st)
+                    out.append(X().visit(st)); out += stmts_of("%s__set = True\n" % t.id, st); known = known | {t.id}; continue
+            if erasable(st): continue
+            if isinstance(st, ast.Expr) and isinstance(st.value, ast.Call) and not st.value.args and not st.value.keywords:
+                c = st.value
+                if isinstance(c.func, ast.Attribute) and c.func.attr == "solve" and isinstance(c.func.value, ast.Name) and c.func.value.id in models:
+                    if cfg["presolved"]:        # a model that its constructor already solved makes no solver call
+                        w = stmts_of("if not SELF.%s[%s]:\n    pass\n" % (cfg["presolved"], c.func.value.id), st)[0]; w.body = stmts_of(RUN, st); out.append(w)
+                    else:
+                        out += stmts_of(RUN, st)
+                    continue
+                if txt(c.func) in cfg["run_calls"]:
+                    out += stmts_of(RUN, st); continue
+                if txt(c) in cfg["solved_calls"]:
+                    out += stmts_of("SELF.solved = True\n", st); continue
+            if isinstance(st, ast.If):
+                k_body, k_else = known, known
+                tst = st.test
+                if isinstance(tst, ast.Compare) and len(tst.ops) == 1 and isinstance(tst.left, ast.Name) and tst.left.id in optional and is_none(tst.comparators[0]):
+                    if isinstance(tst.ops[0], ast.Is): k_else = known | {tst.left.id}
+                    if isinstance(tst.ops[0], ast.IsNot): k_body = known | {tst.left.id}
+                elif target_attr(tst) in cfg["truthy_attrs"] and not isinstance(tst, ast.Subscript):      # `if self.x:` for an optional number x
+                    st.test = ast.copy_location(sattr(cfg["truthy_attrs"][target_attr(tst)]), tst); tst = None
+                else:
+                    for o in optional:
+                        if reads(tst, o) and o not in known: raise Unsupported("read of %r where it may be None" % o, st)
+                if tst is not None: st.test = X().visit(st.test)
+                st.body = walk(st.body, k_body, in_loop); st.orelse = walk(st.orelse, k_else, in_loop)
+                out.append(st); continue
+            if isinstance(st, (ast.For, ast.While)):
+                for fld in ("iter", "test"):
+                    if hasattr(st, fld): setattr(st, fld, X().visit(getattr(st, fld)))
+                st.body = walk(st.body, set(), True); st.orelse = walk(st.orelse, set(), in_loop)
+                out.append(st); continue
+            for o in optional:
+                if reads(st, o) and o not in known: raise Unsupported("read of %r where it may be None" % o, st)
+            out.append(X().visit(st))
+        return out
+    body = walk(fdef.body, set())
+    doc = [body[0]] if body and isinstance(body[0], ast.Expr) and isinstance(body[0].value, ast.Constant) and isinstance(body[0].value.value, str) else []
+    init = []
+    for m in sorted(late): init += stmts_of("%s = 0\n%s__def = False\n" % (m, m), fdef.body[0])
+    fdef.body = doc + init + body[len(doc):]
+    ast.fix_missing_locations(fdef)
+    return fdef
 
 def check_primitives(classdef, extra=None):
     def norm(src): return ast.dump(ast.parse(src))
@@ -402,7 +702,7 @@ NUMOPS = {  # per numeric type: add sub ltb leb eqb max min
     EXT: dict(ltb="xq_ltb", leb="xq_leb", eqb="xq_eqb", max="xq_max", min="xq_min"),
 }
 EXNS = {"ValueError": "ValueError", "KeyError": "KeyError", "TypeError": "TypeError", "RuntimeError": "RuntimeError",
-        "IndexError": "IndexError", "Exception": "PyException"}
+        "IndexError": "IndexError", "Exception": "PyException", "UnboundLocalError": "UnboundLocalError", "ZeroDivisionError": "ZeroDivisionError"}
 # (UnboundLocalError is never raised explicitly; it guards the read of a loop variable after a loop that may not have run)
 LOG_METHODS = ("debug", "info", "warning", "error", "critical", "exception", "log")
 
@@ -454,6 +754,8 @@ class Fn:
         self.ptype = dict(zip(self.params, self.spec["params"]))
         self.selfobj = self.spec.get("selfobj")
         self.sparam = self.params[0] if self.selfobj else None
+        if self.spec.get("search"):
+            self.fdef = f = lower_search(copy.deepcopy(f), self.spec["search"], self.sparam, repo, self.classdef)
         if self.selfobj and self.classdef is not None:
             # calls of other methods of the same class are expanded in place (a private helper and its hand-inlined body are the same program)
             self.fdef = f = self.expand_method_calls(copy.deepcopy(f), 0)
@@ -842,6 +1144,11 @@ class Fn:
             x, ty, g = self.expr(e.right, env)
             if ty != INT: raise Unsupported("power with an exponent of type %s" % show(ty), e)
             return "(py_pow (%d)%%Z %s)" % (e.left.value, x), NUM, g
+        if isinstance(e.op, ast.Div):           # true division of numbers (exact rationals in the model); ZeroDivisionError guarded
+            L = self.expr(e.left, env); R = self.expr(e.right, env)
+            if L[1] not in (INT, NUM) or R[1] not in (INT, NUM): raise Unsupported("division of %s by %s" % (show(L[1]), show(R[1])), e)
+            b = coerce(R[0], R[1], NUM, e)
+            return "(Qdiv %s %s)" % (coerce(L[0], L[1], NUM, e), b), NUM, L[2] + R[2] + [("(Qeq_bool %s (0#1)%%Q)" % b, "ZeroDivisionError")]
         if op is None: raise Unsupported("binary operator %s" % type(e.op).__name__, e)
         L = self.expr(e.left, env); R = self.expr(e.right, env)
         if L[1] == STR and R[1] == STR and op == "add":
@@ -1287,6 +1594,10 @@ class Fn:
                 if ty != NODE: raise Unsupported("str() of a value of type %s (node names are strings already)" % show(ty), e)
                 return t, NODE, g
             if n == "range":
+                if len(e.args) == 2 and not e.keywords:         # range(a, b) = a, a+1, .., b-1
+                    a_, ta, ga = self.expr(e.args[0], env); b_, tb, gb = self.expr(e.args[1], env)
+                    if ta != INT or tb != INT: raise Unsupported("range of %s, %s" % (show(ta), show(tb)), e)
+                    return "(map (Z.add %s) (py_range (Z.sub %s %s)))" % (a_, b_, a_), List(INT), ga + gb
                 if len(e.args) != 1: raise Unsupported("range with %d arguments (only range(n))" % len(e.args), e)
                 t, ty, g = self.expr(e.args[0], env)
                 if ty not in (INT, BITS): raise Unsupported("range of %s" % show(ty), e)
@@ -1300,6 +1611,11 @@ class Fn:
                 if ty not in (INT, NUM): raise Unsupported("log2 of %s" % show(ty), e)
                 q = coerce(t, ty, NUM, e)
                 return "(py_ceil_log2 %s)" % q, BITS, g + [("(Qle_bool %s (0#1)%%Q)" % q, "ValueError")]      # log2(x <= 0): math domain error
+            if n == "abs" and len(e.args) == 1 and not e.keywords:
+                t, ty, g = self.expr(e.args[0], env)
+                if ty == INT: return "(Z.abs %s)" % t, INT, g
+                if ty != NUM: raise Unsupported("abs of a value of type %s" % show(ty), e)
+                return "(py_abs %s)" % t, NUM, g
             if n == "round" and len(e.args) == 1 and not e.keywords:
                 t, ty, g = self.expr(e.args[0], env)
                 if ty == INT: return t, INT, g
@@ -2144,8 +2460,8 @@ REJECT = {
     "partial operation in the second generator": "s = [f for e in seq for f in paths_in_DAG[0]]\nreturn 0",
     "filtered pairs": "r = 0\nfor p in paths_in_DAG:\n    s = [(p[i], p[i + 1]) for i in range(len(p) - 1) if i]\nreturn r",
     "lambda": "f = lambda x: x\nreturn 0",
-    "division": "r = 2\nr = r / 2\nreturn 0",
     "floor division": "r = 2\nr = r // 2\nreturn 0",
+    "modulo": "r = 7\nr = r % 2\nreturn 0",
     "power of a variable": "r = 2\nr = r ** 2\nreturn 0",
     "math call": "r = ceil(2)\nreturn 0",
     "self call in a non-emitter": "seq.add_constraint(0)\nreturn 0",
@@ -2158,7 +2474,7 @@ REJECT = {
     "dict value that is not a fresh list": "a = [0]\nd = {}\nd[0] = a\nreturn 0",
     "partial operation in a conditional expression": "r = edge_lengths[(0, 0)] if len(seq) > 0 else 0\nreturn 0",
     "chained comparison": "r = 0\nif 0 < len(seq) < 3:\n    r = 1\nreturn r",
-    "unknown call": "r = abs(0)\nreturn r",
+    "unknown call": "r = divmod(4, 2)\nreturn 0",
     "method call": "seq.append((0, 0))\nreturn 0",
     "attribute": "r = seq.x\nreturn 0",
     "global name": "return nx",
